@@ -20,6 +20,7 @@ type pathExpression struct {
 	Matcher      *regexp.Regexp
 	Source       string // Path as defined by the RouteBuilder
 	tokens       []string
+	varGroups    []int // for each of VarNames the index of its capturing group in Matcher
 }
 
 // NewPathExpression creates a PathExpression from the input URL path.
@@ -30,7 +31,29 @@ func newPathExpression(path string) (*pathExpression, error) {
 	if err != nil {
 		return nil, err
 	}
-	return &pathExpression{literalCount, varNames, varCount, compiled, expression, tokens}, nil
+	return &pathExpression{literalCount, varNames, varCount, compiled, expression, tokens, variableGroups(tokens)}, nil
+}
+
+// variableGroups returns for each variable in the tokens the index of its capturing group in the
+// regular expression built by templateToRegularExpression ; the expression of a variable can have capturing groups of its own.
+func variableGroups(tokens []string) (groups []int) {
+	next := 1
+	for _, each := range tokens {
+		if !strings.HasPrefix(each, "{") {
+			continue
+		}
+		groups = append(groups, next)
+		next++
+		if colon := strings.Index(each, ":"); colon != -1 {
+			paramExpr := strings.TrimSpace(each[colon+1 : len(each)-1])
+			if paramExpr != "*" {
+				if nested, err := regexp.Compile(paramExpr); err == nil {
+					next += nested.NumSubexp()
+				}
+			}
+		}
+	}
+	return groups
 }
 
 // http://jsr311.java.net/nonav/releases/1.1/spec/spec3.html#x3-370003.7.3
